@@ -419,3 +419,69 @@ theorem C04_field_files (w : World) (hv : Valid w) (g : Graph) (hg : hydrate w =
     rw [e]; exact decl_ne_noRef w d' hd'
 
 end Pgs.AST
+
+/-! ### imports of a oneof and of a service: unions over their members -/
+namespace Pgs.AST
+
+theorem filterMap_map_congr {α β γ : Type} (c : α → Bool) (r : α → β) (G : β → γ) (H : α → γ) :
+    ∀ (l : List α), (∀ q ∈ l, c q = true → G (r q) = H q) →
+      (l.filterMap (fun q => if c q = true then some (r q) else none)).map G = (l.filter c).map H := by
+  intro l
+  induction l with
+  | nil => intro _; rfl
+  | cons a l ih =>
+    intro h
+    have ih' := ih (fun q hq => h q (List.mem_cons_of_mem _ hq))
+    by_cases hc : c a = true
+    · simp only [List.filterMap_cons, hc, if_true, List.map_cons, List.filter_cons, ih', h a (List.mem_cons_self ..) hc]
+    · have hc' : c a = false := by simpa using hc
+      simp only [List.filterMap_cons, hc', Bool.false_eq_true, if_false, List.filter_cons, ih']
+
+/-- **C04 (imports of a oneof)**: the union, over the fields whose `oneof_index` is that oneof, of the
+    other files defining the types they reference. -/
+theorem C04_oneof_imports (w : World) (hv : Valid w) (g : Graph) (hg : hydrate w = .ok g) (o : Nat) :
+    ∀ x ∈ allMsgs w,
+      sortNat ((oneofMembers x.1.file x.1.path x.2.fields o).map (fieldImports g)).flatten =
+      sortNat (((idx x.2.fields).filter (fun q => q.2.oneofIndex == some o)).map
+        fun q => specFieldFiles w x.1.file q.2).flatten := by
+  intro x hx
+  have hmem : ∀ q ∈ idx x.2.fields, ((⟨x.1.file, x.1.path ++ [2, q.1]⟩ : Ref), q.2) ∈ allFields w := by
+    intro q hq
+    simp only [allMsgs, List.mem_flatten, List.mem_map] at hx
+    obtain ⟨l, ⟨⟨fi, f⟩, hf, rfl⟩, hx⟩ := hx
+    obtain ⟨a, b⟩ := msgs_fields_mem' fi f.msgs [] 4 0 x hx
+    simp only [allFields, List.mem_flatten, List.mem_map]
+    exact ⟨_, ⟨(fi, f), hf, rfl⟩, by rw [a]; exact b q hq⟩
+  have hom : oneofMembers x.1.file x.1.path x.2.fields o =
+      (idx x.2.fields).filterMap (fun q => if (q.2.oneofIndex == some o) = true then some (⟨x.1.file, x.1.path ++ [2, q.1]⟩ : Ref) else none) := by
+    unfold oneofMembers
+    apply filterMap_congr_mem'
+    intro q _
+    obtain ⟨i, f⟩ := q
+    by_cases h : f.oneofIndex = some o <;> simp [h]
+  rw [hom]
+  congr 2
+  apply filterMap_map_congr
+  intro q hq _
+  exact C04_field_files w hv g hg _ (List.mem_append_left _ (hmem q hq))
+
+/-- **C04 (imports of a service)**: the union of its methods' imports. -/
+theorem C04_service_imports (w : World) (hv : Valid w) (g : Graph) (hg : hydrate w = .ok g)
+    (fi si : Nat) (f : FileD) (s : ServiceD) (hf : w.files[fi]? = some f) (hs : f.services[si]? = some s) :
+    ((List.range s.methods.length).map fun mi => methodImports g ⟨fi, [6, si, 2, mi]⟩) =
+    (idx s.methods).map fun m =>
+      let i := declaredAs w m.2.input .msg
+      let o := declaredAs w m.2.output .msg
+      (if i.file != fi then [i.file] else []) ++ (if o.file != fi && o.file != i.file then [o.file] else []) := by
+  rw [← idx_map_fst s.methods (fun mi => methodImports g ⟨fi, [6, si, 2, mi]⟩)]
+  apply List.map_congr_left
+  intro m hm
+  have hin : ((⟨fi, [6, si, 2, m.1]⟩ : Ref), declaredAs w m.2.input .msg, declaredAs w m.2.output .msg) ∈ specMio w := by
+    unfold specMio
+    simp only [List.mem_flatten, List.mem_map]
+    refine ⟨_, ⟨(fi, f), idx_of_get _ _ _ hf, rfl⟩, ?_⟩
+    simp only [List.mem_flatten, List.mem_map]
+    exact ⟨_, ⟨(si, s), idx_of_get _ _ _ hs, rfl⟩, List.mem_map.mpr ⟨m, hm, rfl⟩⟩
+  exact C04_method_imports w hv g hg _ hin
+
+end Pgs.AST
